@@ -290,6 +290,8 @@ def run(cx, rep):
     revocable_memo_rule(F, rep, entries)
     # ---------------------------------------------------------------- C05.13
     engine_decides_rule(F, rep, "C05.13")
+    # ---------------------------------------------------------------- C05.14
+    skipped_negative_rule(F, rep, "C05.14")
 
     # ---------------------------------------------------------------- C05.5
     rep.rule("C05.5", "polarity of the path walk in bdd_every_result")
@@ -1249,3 +1251,89 @@ def engine_decides_rule(F, rep, rid):
                "the handling of %s in %s returns a value (line %s) on a path that has not consulted the semantic engine (%s): a syntactic shortcut must re-implement assignability for every pair of kinds, and any kind it does not know is silently treated as `not assignable` / `not removed`" % (
                    what, f.id, ", ".join(str(h.get("line")) for h in hits[:4]), ev),
                f.loc(), sample={"operator": what, "fn": f.id, "engine_call": ev, "value_exits_without_engine": len(hits)})
+
+
+# ---------------------------------------------------------------------------------------------------- C05.14
+def skipped_negative_rule(F, rep, rid):
+    """`pos \\ (n1 | n2 | ..)` is decided one negative at a time: `pos \\ n1` is cut into FRAGMENTS of pos and each
+    fragment is checked against the remaining negatives.  Handing the UNCHANGED positive on to the remaining negatives
+    means `pos \\ n1 = pos`, i.e. that n1 removes nothing - true only if pos and n1 are disjoint, which for these
+    atoms is a statement about EMPTINESS (a missing rest element, an empty value type), never about which keys are
+    spelled out (an index signature covers keys that are not declared).  Decided for the recursive procedures of the
+    engine that take a list of negatives: every self-call that passes all other arguments unchanged and only moves on
+    to the remaining negatives lies under a condition that contains an emptiness test (`is_never`, `is_empty`,
+    `is_empty_status`)."""
+    rep.rule(rid, "a negative is skipped (the positive handed on unchanged) only under an emptiness test")
+    n = 0
+    for g, t in sorted(F.hir.items()):
+        f = F.fns.get(g)
+        if f is None or f.kind == "Closure" or not (f.file or "").startswith("packages/beff-core/src/subtyping"):
+            continue
+        plids = [p.get("lid") if p["k"] == "P.Binding" else None for p in t["params"]]
+        ptys = [p.get("ty") or "" for p in t["params"]]
+        negpos = [i for i, ty in enumerate(ptys) if (ty.startswith("&[") and "AtomicType" in ty) or ("Option<std::rc::Rc<subtyping::bdd::Conjunction>>" in ty)]
+        if not negpos:
+            continue
+        lets = {x["pat"].get("lid"): x["init"] for x in walk(t["body"]) if x["k"] == "LetStmt" and x["pat"]["k"] == "P.Binding" and x.get("init") is not None}
+        def plain_param(e, i):
+            while isinstance(e, dict) and e.get("k") in ("AddrOf", "Deref", "DropTemps"):
+                e = e["e"]
+            if isinstance(e, dict) and e.get("k") == "MethodCall" and e.get("method") == "clone" and not e.get("args"):
+                return plain_param(e["recv"], i)
+            return isinstance(e, dict) and e.get("k") == "Path" and e.get("lid") == plids[i]
+        def enclosing_conds(node):
+            """conditions of the if / match-arm guards on the way from the body to `node`, plus earlier guards that leave"""
+            out = []
+            def go(n):
+                if n is node:
+                    return True
+                if not isinstance(n, dict):
+                    return False
+                k = n.get("k")
+                if k == "If":
+                    for br in ("then", "else"):
+                        if isinstance(n.get(br), dict) and go(n[br]):
+                            out.append(n["cond"])
+                            return True
+                    return go(n["cond"])
+                if k == "Match":
+                    if go(n["scrut"]):
+                        return True
+                    for a_ in n["arms"]:
+                        if go(a_["body"]):
+                            if a_.get("guard"):
+                                out.append(a_["guard"])
+                            out.append(n["scrut"])
+                            return True
+                    return False
+                for v in n.values():
+                    if isinstance(v, dict) and go(v):
+                        return True
+                    if isinstance(v, list):
+                        for y in v:
+                            if isinstance(y, dict) and go(y):
+                                return True
+                return False
+            go(t["body"])
+            return out
+        for x in walk(t["body"]):
+            if x["k"] not in ("Call", "MethodCall"):
+                continue
+            cal = x.get("callee") if x["k"] == "Call" else (x.get("resolved") or x.get("callee"))
+            if F._callee_gid(f.crate, cal or "") != g:
+                continue
+            args = ([x["recv"]] if x["k"] == "MethodCall" else []) + list(x["args"])
+            if len(args) != len(plids):
+                continue
+            ni = negpos[0]
+            others_plain = all(plain_param(a_, i) for i, a_ in enumerate(args) if i != ni and "SemTypeContext" not in ptys[i])
+            moved_on = not plain_param(args[ni], ni)
+            if not (others_plain and moved_on):
+                continue
+            n += 1
+            conds = enclosing_conds(x)
+            tested = any(y["k"] == "MethodCall" and y.get("method") in ("is_never", "is_empty", "is_empty_status", "is_subtype") for c_ in conds for y in walk(c_))
+            rep.ob(rid, "%s/skip" % g.rsplit("::", 1)[-1], tested,
+                   "%s hands the unchanged positive on to the remaining negatives (line %s), i.e. it claims that the current negative removes nothing, without an emptiness test in the conditions leading there: whether a negative overlaps the positive is not a matter of which keys are declared (an index signature covers the others), so values the skipped negative would have removed are counted as left over and `S extends A | B` is answered `no` depending on the order of A and B" % (g, x.get("line")),
+                   "%s:%s" % (f.file, x.get("line")), sample={"fn": g, "conditions": len(conds)})
+    rep.ob(rid, "scan", True, sample={"skip_calls": n})
